@@ -129,7 +129,39 @@ static std::string gepExtras(const GEPOperator *gep) {
     }
     vars += "]";
     idxs += "]";
-    std::string s = "\"off\":" + std::to_string(off) + ",\"var\":" + vars +
+    // per-level shape: ["p",elemsize] pointer-level, ["s",fieldoff,fieldsize] struct field, ["a",elemsize,count] array
+    std::string lv = "[";
+    {
+        bool firstl = true;
+        Type *cur = gep->getSourceElementType();
+        unsigned k = 0;
+        for (auto it = gep->idx_begin(); it != gep->idx_end(); ++it, ++k) {
+            if (!firstl) lv += ",";
+            firstl = false;
+            if (k == 0) {
+                lv += "[\"p\"," + std::to_string(DL->getTypeAllocSize(cur).getFixedSize()) + "]";
+                continue;
+            }
+            if (StructType *st = dyn_cast<StructType>(cur)) {
+                unsigned fi = cast<ConstantInt>(it->get())->getZExtValue();
+                lv += "[\"s\"," + std::to_string(DL->getStructLayout(st)->getElementOffset(fi)) + "," +
+                      std::to_string(DL->getTypeAllocSize(st->getElementType(fi)).getFixedSize()) + "]";
+                cur = st->getElementType(fi);
+            } else if (ArrayType *at = dyn_cast<ArrayType>(cur)) {
+                lv += "[\"a\"," + std::to_string(DL->getTypeAllocSize(at->getElementType()).getFixedSize()) + "," +
+                      std::to_string(at->getNumElements()) + "]";
+                cur = at->getElementType();
+            } else if (FixedVectorType *vt = dyn_cast<FixedVectorType>(cur)) {
+                lv += "[\"a\"," + std::to_string(DL->getTypeAllocSize(vt->getElementType()).getFixedSize()) + "," +
+                      std::to_string(vt->getNumElements()) + "]";
+                cur = vt->getElementType();
+            } else {
+                lv += "[\"p\",1]";
+            }
+        }
+    }
+    lv += "]";
+    std::string s = "\"off\":" + std::to_string(off) + ",\"var\":" + vars + ",\"lv\":" + lv +
                     ",\"idx\":" + idxs +
                     ",\"sty\":" + tystr(gep->getSourceElementType()) +
                     ",\"inb\":" + (gep->isInBounds() ? "1" : "0");
